@@ -3,8 +3,8 @@ from . import proc_common as PC
 from . import inbox_common as IC
 from .proc_common import TRUSTED_BASE, ASSUMPTIONS
 
-COQ_FILES = ["Proc.v", "ProcExec.v"]
-THEOREMS = []
+COQ_FILES = ["Proc.v", "ProcExec.v", "ProcProofs.v", "PropsProc.v", "DeliverExec.v", "ProcSchedExec.v"]
+THEOREMS = ["C05_contained", "C05_panic_then_stopped", "C05_restart_shape", "C05_delivered_in_send_order_exactly_once", "C05_no_silent_loss", "C05_oracle_sound"]
 RULE = ("scripted single-actor scenarios on the real engine: the Started handler of the first incarnation forms the first batch "
         "from {message, panicking message, Poison(self), Stop(self)} (exhaustive to length 4/5), plus panics in Initialized/Started/"
         "per incarnation, InternalError panics, handlers that send more messages, MaxRestarts 0-3, middleware chains 0-3 and external "
